@@ -81,6 +81,8 @@ type Plugin struct {
 	logger *zap.Logger
 	buf    []byte
 
+	labelValsBuf []string
+
 	cardinalityUniqueValuesLimit *metric.Gauge
 	cardinalityUniqueValuesGauge *metric.GaugeVec
 }
@@ -238,6 +240,25 @@ func (p *Plugin) registerMetrics(ctl *metric.Ctl, prefix string) {
 	p.cardinalityUniqueValuesLimit.Set(float64(p.config.Limit))
 }
 
+// keyLabelValues returns the values of the key fields that correspond to the labels of keyMetricLabels:
+// key fields with the same label name (e.g. `a.b` and `a_b`, or a repeated field) share one label.
+func (p *Plugin) keyLabelValues() []string {
+	p.labelValsBuf = p.labelValsBuf[:0]
+	for i := range p.keys.fields {
+		first := true
+		for j := 0; j < i; j++ {
+			if p.keys.fields[j].name == p.keys.fields[i].name {
+				first = false
+				break
+			}
+		}
+		if first {
+			p.labelValsBuf = append(p.labelValsBuf, p.keys.valsBuf[i])
+		}
+	}
+	return p.labelValsBuf
+}
+
 func keyMetricLabels(fields *parsedFields) []string {
 	result := make([]string, 0, len(fields.fields))
 	seen := make(map[string]bool, len(fields.fields))
@@ -290,7 +311,7 @@ func (p *Plugin) Do(event *pipeline.Event) pipeline.ActionResult {
 	if !isOldValue {
 		// is new value
 		keysCount++
-		p.cardinalityUniqueValuesGauge.WithLabelValues(p.keys.valsBuf...).Set(float64(keysCount))
+		p.cardinalityUniqueValuesGauge.WithLabelValues(p.keyLabelValues()...).Set(float64(keysCount))
 	}
 
 	return pipeline.ActionPass
